@@ -18,6 +18,7 @@ type reflVal struct {
 	addr   *value     // slot holding the value when addressable
 	v      value      // the value when not addressable
 	canSet bool
+	ro     bool // obtained through an unexported struct field (reflect's flagRO): Set(x) with such an x panics
 }
 
 func (r reflVal) get() value {
@@ -413,6 +414,9 @@ func init() {
 			if x.t == nil {
 				m.reflPanic("reflect.Set: value of type nil is not assignable")
 			}
+			if x.ro {
+				m.reflPanic("reflect: reflect.Value.Set using value obtained using unexported field")
+			}
 			xv := x.get()
 			if _, isI := rv.t.Underlying().(*types.Interface); isI {
 				if _, srcI := x.t.Underlying().(*types.Interface); !srcI {
@@ -475,13 +479,13 @@ func init() {
 			switch v := rv.get().(type) {
 			case []value:
 				i := m.reflIndex(idx, len(v))
-				return reflVal{t: rv.t.Underlying().(*types.Slice).Elem(), addr: &v[i], canSet: true}
+				return reflVal{t: rv.t.Underlying().(*types.Slice).Elem(), addr: &v[i], canSet: !rv.ro, ro: rv.ro}
 			case arrayV:
 				i := m.reflIndex(idx, len(v))
 				et := rv.t.Underlying().(*types.Array).Elem()
 				if rv.addr != nil {
 					arr := (*rv.addr).(arrayV)
-					return reflVal{t: et, addr: &arr[i], canSet: rv.canSet}
+					return reflVal{t: et, addr: &arr[i], canSet: rv.canSet, ro: rv.ro}
 				}
 				return reflVal{t: et, v: v[i]}
 			case strV:
@@ -516,9 +520,9 @@ func init() {
 			f := st.Field(i)
 			if rv.addr != nil {
 				s := (*rv.addr).(structV)
-				return reflVal{t: f.Type(), addr: &s[i], canSet: rv.canSet && f.Exported()}
+				return reflVal{t: f.Type(), addr: &s[i], canSet: rv.canSet && f.Exported(), ro: rv.ro || !f.Exported()}
 			}
-			return reflVal{t: f.Type(), v: rv.v.(structV)[i]}
+			return reflVal{t: f.Type(), v: rv.v.(structV)[i], ro: rv.ro || !f.Exported()}
 		},
 		"(reflect.Value).MapKeys": func(m *Machine, c *frame, a []value) value {
 			rv := m.asReflVal(a[0])
@@ -582,7 +586,7 @@ func init() {
 		"(reflect.Value).Convert": func(m *Machine, c *frame, a []value) value {
 			rv := m.asReflVal(a[0])
 			t := m.asReflType(a[1])
-			return reflVal{t: t, v: m.conv(t, rv.t, rv.get())}
+			return reflVal{t: t, v: m.conv(t, rv.t, rv.get()), ro: rv.ro}
 		},
 	}
 }
